@@ -13,7 +13,7 @@ RULE = (
     "Hypothesis-generated circuits (n<=3, <=4 ops) whose gate parameters are numbers, symbols and "
     "expressions over a pool of 5 symbols; built-ins, symbolic custom gates whose actual parameters "
     "mention the definition's formal symbols, dagger/controlled wrappers, MultiPhaseOperations with "
-    "symbolic phases; symbol maps partial / total / with superfluous keys, values numeric or symbolic "
+    "symbolic phases; symbol maps partial / total / with superfluous keys, values numeric (real, and for gate-only circuits also non-real) or symbolic "
     "over fresh symbols. Oracle: gate.bind(m).matrix == gate.matrix.subs(m, simultaneous) at a random "
     "completion, same for to_unitary; split binding == one-step binding; free symbols == symbols of "
     "the parameters; Power/Exponential refuse bind with NotImplementedError. Non-trivial: the map is "
@@ -66,8 +66,12 @@ def sym_gate(draw, maxq):
 @st.composite
 def value(draw):
     r = draw(st.integers(0, 9))
-    if r < 7:
+    if r < 6:
         return draw(st.one_of(st.floats(-2, 2, allow_nan=False), st.integers(-2, 2)))
+    if r == 6:
+        # numbers off the real axis are numbers too: a Python complex, or a sympy number a + b*I
+        re, im = draw(st.floats(-2, 2, allow_nan=False)), draw(st.sampled_from([0.5, -1.25, 1.0, 0.3]))
+        return ["cplx", re, im] if draw(st.booleans()) else ["+", re, ["*", im, ["I"]]]
     return draw(cgen.expr_specs(depth=1, names=FRESH))
 
 
@@ -87,6 +91,9 @@ def bind_cases(draw, tier):
         ops.insert(draw(st.integers(0, len(ops))), {"reset": draw(st.integers(0, n - 1))})
     keys = draw(st.lists(st.sampled_from(POOL + ["zz", "unused_1"]), unique=True, max_size=6))
     m = [[k, draw(value())] for k in keys]
+    if any("mp" in o for o in ops):
+        # MultiPhaseOperation documents real phases only and refuses anything else: keep the map real there
+        m = [[k, (v[1] if isinstance(v, list) and v[0] in ("cplx", "+") and not cgen.expr_symbols(v) else v)] for k, v in m]
     order = draw(st.permutations(list(range(len(m)))))
     return {"n": n, "ops": ops, "map": m, "split": list(order[: len(m) // 2]),
             "vseed": draw(st.integers(0, 10 ** 6)), "touch": draw(st.sampled_from([True, True, False]))}
@@ -279,6 +286,8 @@ def o_bind(spec):
         cl.add("superfluous_keys")
     if symbolic_val:
         cl.add("symbolic_value")
+    if any(isinstance(v, list) and v[0] in ("cplx", "+") and not cgen.expr_symbols(v) for k, v in spec["map"] if sympy.Symbol(k) in csyms):
+        cl.add("non_real_value")
     if any("mp" in o for o in spec["ops"]):
         cl.add("multiphase")
     if any("reset" in o for o in spec["ops"]):
@@ -350,4 +359,4 @@ SUBCHECKS = [
              rule="Power / Exponential anywhere on the bind path raise NotImplementedError; non-trivial = >=2 modifiers"),
 ]
 SUBCHECKS[0].expected_classes = ["partial_map", "total_map", "superfluous_keys", "symbolic_value", "multiphase", "custom",
-                                 "custom_actuals_mention_formals", "wrapped", "mixed_numeric_symbolic_unitary"]
+                                 "custom_actuals_mention_formals", "wrapped", "mixed_numeric_symbolic_unitary", "non_real_value"]
